@@ -40,6 +40,22 @@ benign("boson-hoisted-row-test", "Boson parser with the row test hoisted out of 
        (BO, "\ti := 0\n\tfor y, row := range out.Pix {\n\t\tfor x := range row {\n\t\t\tout.Pix[y][x] = binary.LittleEndian.Uint16(raw[i : i+2])\n\t\t\tonEdge := y < edgePixels || x < edgePixels || y >= (len(out.Pix)-edgePixels) || x >= (len(row)-edgePixels)\n\t\t\tif !onEdge && out.Pix[y][x] == 0 {\n\t\t\t\terr := fmt.Errorf(\"bad pixel (%d,%d) of %d\", y, x, out.Pix[y][x])",
         "\trows := len(out.Pix)\n\ti := 0\n\tfor y, row := range out.Pix {\n\t\tcols := len(row)\n\t\tinteriorRow := y >= edgePixels && y < rows-edgePixels\n\t\tfor x := range row {\n\t\t\tv := binary.LittleEndian.Uint16(raw[i : i+2])\n\t\t\tout.Pix[y][x] = v\n\t\t\tif v == 0 && interiorRow && x >= edgePixels && x < cols-edgePixels {\n\t\t\t\terr := fmt.Errorf(\"bad pixel (%d,%d) of %d\", y, x, v)", False))
 
+LD = "cmd/leptond/main.go"
+benign("probe-length-named", "probe length expressed as len(marker)", (MAIN, "_, err := io.ReadFull(reader, rawFrame[:5])", "_, err := io.ReadFull(reader, rawFrame[:len(clearBuffer)])", False),
+       (MAIN, "\t\tmessage := string(rawFrame[:5])\n\t\tif message == clearBuffer {", "\t\tmessage := string(rawFrame[:len(clearBuffer)])\n\t\tif message == clearBuffer {", False),
+       (MAIN, "_, err = io.ReadFull(reader, rawFrame[5:])", "_, err = io.ReadFull(reader, rawFrame[len(clearBuffer):])", False))
+benign("rename-raw-frame", "frame buffer renamed", (MAIN, "rawFrame", "frameBuf", True))
+benign("rename-inlined-in-stop", "final-name helper inlined into StopRecording", (CF, "\t\tfinalName, err := renameTempRecording(fw.writer.Name())", "\t\ttempName := fw.writer.Name()\n\t\tfinalName := recordingFinalName(tempName)\n\t\terr := os.Rename(tempName, finalName)", False))
+benign("leptond-map-reordered", "camera spec map entries reordered", (LD, "\t\theaders.XResolution: camera.ResX(),\n\t\theaders.YResolution: camera.ResY(),\n", "\t\theaders.YResolution: camera.ResY(),\n\t\theaders.XResolution: camera.ResX(),\n", False))
+benign("header-by-assignment", "CPTV header fields set by assignment after the literal", (CF, "\t\tFirmware:     firmware,\n\t}\n", "\t}\n\tcptvHeader.Firmware = firmware\n", False))
+benign("clamp-helper", "temp-thresh clamp extracted into a helper", (MO, "\t\t\tvb := b.Pix[y][x]\n\t\t\tif vb < d.tempThresh {\n\t\t\t\tvb = d.tempThresh\n\t\t\t}\n\t\t\tout.Pix[y][x] = absDiff(va, vb)", "\t\t\tvb := floorTo(b.Pix[y][x], d.tempThresh)\n\t\t\tout.Pix[y][x] = absDiff(va, vb)", False),
+       (MO, "func absDiff(a, b uint16) uint16 {", "func floorTo(v, t uint16) uint16 {\n\tif v < t {\n\t\treturn t\n\t}\n\treturn v\n}\n\nfunc absDiff(a, b uint16) uint16 {", False))
+benign("next-index-inlined", "ring advance written inline", (FL, "\tfl.currentIndex = fl.nextIndexAfter(fl.currentIndex)\n", "\tfl.currentIndex = (fl.currentIndex + 1) % fl.size\n", False))
+benign("snapshot-lock-explicit-unlock-helper", "requesters wrapped in a helper that holds the mutex", (MAIN.replace("main.go","snapshot.go"), "func newSnapshotRecording() error {\n\tmu.Lock()\n\tdefer mu.Unlock()\n", "func newSnapshotRecording() error {\n\tmu.Lock()\n\tdefer func() { mu.Unlock() }()\n", False))
+benign("continuous-counter-renamed", "continuous counter renamed", (MP, "crFrames", "constantFrames", True))
+benign("detect-result-local", "Detect result kept in a local before use", (MP, "\tif mp.motionDetector.Detect(frame) {\n", "\tmotion := mp.motionDetector.Detect(frame)\n\tif motion {\n", False))
+benign("writer-frame-var-renamed", "thermal-writer loop variable renamed", (TW, "\t\tframe := <-spentFrames\n\t\t_, err := io.ReadFull(reader, frame)", "\t\tbuf := <-spentFrames\n\t\t_, err := io.ReadFull(reader, buf)", False), (TW, "\t\twriteFrames <- frame\n", "\t\twriteFrames <- buf\n", False))
+
 here = os.path.dirname(os.path.abspath(__file__))
 for f in os.listdir(os.path.join(here, "benign")):
     os.unlink(os.path.join(here, "benign", f))
